@@ -112,6 +112,8 @@ def run_replay(mod, fn, expr):
     try:
         r = eval_call(mod, expr)
     except Exception as e:      # noqa
+        if type(e).__name__ in ('DoubleUnsupported', 'SQLDoubleUnsupported'):
+            return {'status': 'unsupported', 'how': 'environment double: %s' % str(e)[:300]}
         return {'status': 'reproduced', 'how': 'raises %s: %s' % (type(e).__name__, str(e)[:300]),
                 'traceback': traceback.format_exc()[-1500:]}
     if not r:
